@@ -13,7 +13,8 @@ for d in sorted(glob.glob("/verif/seeded/*/")):
             line = l
             break
     line = re.sub(r"\s+", " ", line).replace("|", "\\|")[:170]
-    wave = "1" if "-m" in m["id"] else ("2" if "-w2" in m["id"] else "3")
+    w = re.search(r"-w(\d+)m", m["id"])
+    wave = "1" if "-m" in m["id"] else (w.group(1) if w else "own")
     r1 = m.get("round1", {}).get("detected_by")
     final = m.get("detected_by", [])
     first = r1 if r1 is not None else m.get("first_run_detected_by", final)
